@@ -127,7 +127,8 @@ def graph_growth(chk):
 
 # ---- histories with overlapping handler tasks (async_handlers=True, the library default) ----
 Q_IMPORTS = 'From VT Require Import Check.SrvCheck Check.C11Check.'
-Q_KINDS = {1: 'rooms', 2: 'pending', 3: 'callbacks', 4: 'environ', 5: 'binary-packet', 6: 'session', 7: 'not-fresh'}
+Q_KINDS = {1: 'rooms', 2: 'pending', 3: 'callbacks', 4: 'environ', 5: 'binary-packet', 6: 'session', 7: 'not-fresh',
+           8: 'retained-tasks'}
 
 
 def overlap_knobs():
@@ -161,9 +162,9 @@ def overlap_history(rng, k=None):
 
 
 def directed_overlap():
-    """Three small histories under EVERY schedule of their last two operations (await / task x 0..2 turns):
-    an event whose handler emits to its own sid with a callback, followed at once by the transport close; a CONNECT
-    (always_connect) whose handler refuses after yielding, followed by the close, alone and with a second client that
+    """Four small histories under EVERY schedule of their last two operations (await / task x 0..2 turns):
+    an event whose handler emits to its own sid with a callback, followed at once by the transport close; the same with an event handler that RAISES;
+    a CONNECT (always_connect) whose handler refuses after yielding, followed by the close, alone and with a second client that
     keeps the namespace alive (the disconnect handler emits, so the close suspends too)."""
     def behav(arity, actions=(), outcome=('ret', None)):
         return {'arity': arity, 'actions': list(actions), 'outcome': outcome}
@@ -172,9 +173,11 @@ def directed_overlap():
                behav={1: behav(2), 2: behav(None, [('emit_self_cb', 'confirm', {'ok': True}, 1001)]), 3: behav(2)})
     ref = dict(base, always_connect=True, handlers={'/': {'connect': 1, 'disconnect': 3}},
                behav={1: behav(2, [('yield', 2)], ('refuse', ['no'])), 3: behav(2, [('emit_room', 'bye', 'x', None, False)])})
+    boom = dict(ack, behav={1: behav(2), 2: behav(None, [('yield', 1)], ('raise', 'ValueError')), 3: behav(2)})
     ref2 = dict(ref, behav={1: behav(2, [('yield', 1)], ('ret', False)), 3: ref['behav'][3]})
     con = ('eio_connect', 'e0', {'REMOTE_ADDR': 'e0'})
     hs = [(ack, [con, ('msg', 'e0', '0'), ('msg', 'e0', '2["ev"]'), ('close', 'e0', 'transport close')]),
+          (boom, [con, ('msg', 'e0', '0'), ('msg', 'e0', '2["ev",{"secret":"payload"}]'), ('close', 'e0', 'transport close')]),
           (ref, [con, ('msg', 'e0', '0'), ('close', 'e0', 'ping timeout')]),
           (ref2, [con, ('msg', 'e0', '0'), ('close', 'e0', 'transport error')])]
     slots = [(h, y) for h in ('await', 'task') for y in (0, 1, 2)]
@@ -280,7 +283,8 @@ def overlap(chk):
         except Exception:
             ops_s, sched_s = ops, sched
         chk.violation(sig, 'with async_handlers=True (handler tasks overlapping the following operations) the %s server keeps '
-                      'state for a departed client at a quiescent point (Coq checker c11_final on the state dump)' % mode,
+                      'state (tables, or finished handler tasks) for a departed client at a quiescent point (Coq checker c11q_eval on the '
+                      'quiescent dumps)' % mode,
                       {'kind': 'overlap', 'py': repr((cfg, ops_s, mode, sched_s))})
 
 
